@@ -1,0 +1,42 @@
+//go:build verif
+// +build verif
+
+package mod_auth_basic
+
+import (
+	"github.com/bfenetworks/bfe/bfe_basic"
+	"github.com/bfenetworks/bfe/bfe_basic/condition"
+	"github.com/bfenetworks/bfe/bfe_http"
+)
+
+// VerifRule is an in-memory auth rule (what ruleConvert builds from a rule file entry + user file).
+// For the out-of-tree verification harness (build tag verif).
+type VerifRule struct {
+	Cond  string
+	Users map[string]string // user -> hashed password, as readUserFile returns it
+	Realm string
+}
+
+// VerifModule wraps one module instance.
+type VerifModule struct{ m *ModuleAuthBasic }
+
+func VerifNew() *VerifModule { return &VerifModule{m: NewModuleAuthBasic()} }
+
+// Handle installs rules for product (ruleTable.Update) and runs authBasicHandler on req.
+func (v *VerifModule) Handle(product string, rules []VerifRule, req *bfe_basic.Request) (int, *bfe_http.Response, error) {
+	list := make(RuleList, 0, len(rules))
+	for _, r := range rules {
+		cond, err := condition.Build(r.Cond)
+		if err != nil {
+			return 0, nil, err
+		}
+		list = append(list, AuthBasicRule{Cond: cond, UserPasswd: r.Users, Realm: r.Realm})
+	}
+	conf := AuthBasicConf{Version: "verif", Config: ProductRules{}}
+	if product != "" {
+		conf.Config[product] = &list
+	}
+	v.m.ruleTable.Update(conf)
+	ret, resp := v.m.authBasicHandler(req)
+	return ret, resp, nil
+}
